@@ -5,6 +5,16 @@
 #include <memory>
 
 extern en::Recorder R;
+// copyable, with a move constructor that is NOT noexcept: an rvalue must still be moved, not copied
+struct Cnt2 {
+  int v;
+  static int copies, moves;
+  static void reset() { copies = moves = 0; }
+  explicit Cnt2(int v_) : v(v_) {}
+  Cnt2(const Cnt2& o) : v(o.v) { ++copies; }
+  Cnt2(Cnt2&& o) : v(o.v) { ++moves; o.v = -1; }
+  Cnt2& operator=(const Cnt2&) = default;
+};
 extern int g_sink;
 struct Cnt {
   int v;
